@@ -125,3 +125,87 @@ Theorem C01_collect_all_exact : forall fuel S D vars obj sets g',
   forall k o, in_group g' k o <-> exists s, In s sets /\ Occurs S D vars obj s k o.
 Proof. exact collect_all_exact_full. Qed.
 Print Assumptions C01_collect_all_exact.
+
+(* ---- the *planned* executor: PlanQuery builds a plan tree once, ExecutePlan walks it any number of
+        times (Exec/PlanExec.v: plan_of follows planSelectionSetsLocked / planMergedFieldChildren /
+        abstractAlternative / planArguments, pexec_* follow executePlannedSelection /
+        resolvePlannedField / completePlanned* and the dethunk pass; Proofs/PlanExecProofs.v).
+        Full statements: no restriction on thunks, abstract fields or dynamic levels. ---- *)
+From GQL Require Import Exec.PlanExec Proofs.PlanExecProofs.
+
+(* What the walker relies on holds of every plan the planner builds: a static level holds the groups
+   CollectFields yields for every variable assignment, all-literal arguments are the per-request
+   coercion for every variable assignment, the sub-plan of an object field is a well-formed plan of
+   its merged sub-selections, the alternative of an abstract field is one for every runtime type. *)
+Theorem C01_planner_builds_wf_plans : forall pf S D k, k <= pf ->
+  forall obj sets pl, plan_of k S D obj sets = Some pl -> wf_plan pf S D obj sets pl.
+Proof. exact plan_of_wf. Qed.
+Print Assumptions C01_planner_builds_wf_plans.
+
+(* ExecutePlan on *any* well-formed plan (however it was obtained: built afresh, shared by key, filled
+   lazily) is ExecuteRequest: same data, st_errs, st_calls (resolver calls with coerced arguments, in
+   order), st_tcalls, st_missing, st_escape -- or the same request error. *)
+Theorem C01_execute_plan_refines : forall pf ef S D opname op rt pl inputs root or tor r,
+  get_operation D opname = Some op -> root_type S op = Some rt ->
+  wf_plan pf S D rt [o_sel op] pl ->
+  execute_plan pf ef S D {| pp_op := op; pp_root := rt; pp_plan := pl |} inputs root or tor = r ->
+  r <> RFuel ->
+  Request.request (ef + pf) S D opname inputs root or tor = r.
+Proof. exact execute_plan_refines. Qed.
+Print Assumptions C01_execute_plan_refines.
+
+(* PlanQuery + ExecutePlan: whenever the planned execution of a request finishes (pf: planning fuel,
+   ef: execution fuel), it returns exactly what the execution algorithm returns. *)
+Theorem C01_planned_request_refines : forall pf ef S D opname inputs root or tor r,
+  PlanExec.request pf ef S D opname inputs root or tor = r -> r <> RFuel ->
+  Request.request (ef + pf) S D opname inputs root or tor = r.
+Proof. exact planned_request_refines. Qed.
+Print Assumptions C01_planned_request_refines.
+
+Theorem C01_planned_request_done : forall pf ef S D opname inputs root or tor d s,
+  PlanExec.request pf ef S D opname inputs root or tor = RDone d s ->
+  exists fuel, Request.request fuel S D opname inputs root or tor = RDone d s.
+Proof. exact planned_request_done. Qed.
+Print Assumptions C01_planned_request_done.
+
+(* Plan reuse: one plan, executed with any variables / root value / resolver behaviour, gives each
+   time what a fresh ExecuteRequest gives ... *)
+Theorem C01_plan_reuse_each : forall pf S D opname pp,
+  plan_query pf S D opname = Planned pp ->
+  forall ef x r, run_plan pf ef S D pp x = r -> r <> RFuel -> run_fresh (ef + pf) S D opname x = r.
+Proof. exact plan_reuse_each. Qed.
+Print Assumptions C01_plan_reuse_each.
+
+(* ... n times in a row. *)
+Theorem C01_plan_reuse : forall pf S D opname pp,
+  plan_query pf S D opname = Planned pp ->
+  forall ef (xs : list run),
+    Forall (fun x => run_plan pf ef S D pp x <> RFuel) xs ->
+    map (run_plan pf ef S D pp) xs = map (run_fresh (ef + pf) S D opname) xs.
+Proof. exact plan_reuse. Qed.
+Print Assumptions C01_plan_reuse.
+
+(* The plan of this model, with arguments, field definitions and lazily planned alternatives
+   forgotten, is PlanCollect.plan_tree -- the structure compared with the dump of every real plan. *)
+Theorem C01_plan_of_is_plan_tree : forall k S D obj sets pl,
+  plan_of k S D obj sets = Some pl -> plan_tree k S D obj sets = Some (shape pl).
+Proof. exact plan_of_shape. Qed.
+Print Assumptions C01_plan_of_is_plan_tree.
+
+(* Non-vacuity: a plan with a static root, dynamic sub-levels, an eager object sub-plan, a lazily
+   planned interface alternative, literal and variable arguments, deferred values, an error and a
+   non-null violation is built once and executed under two variable assignments. *)
+Theorem C01_planned_nonvacuous :
+  match plan_query 12 Example.S2 Example.D2 None with
+  | Planned pp =>
+    Example.level_kinds (pp_plan pp) =
+      [("a", true, false); ("o", true, true); ("o2", false, false); ("i", true, false);
+       ("l", true, true); ("t", true, false)] /\
+    (exists d s, execute_plan 12 12 Example.S2 Example.D2 pp (Example.inputs2 true) RNull Example.or2 Example.tor2
+                 = RDone (Some d) s /\ List.length (st_calls s) = 14%nat /\ List.length (st_errs s) = 2%nat) /\
+    (exists d s, execute_plan 12 12 Example.S2 Example.D2 pp (Example.inputs2 false) RNull Example.or2 Example.tor2
+                 = RDone (Some d) s /\ List.length (st_calls s) = 12%nat /\ List.length (st_errs s) = 1%nat)
+  | _ => False
+  end.
+Proof. exact Example.planned_nonvacuous_short. Qed.
+Print Assumptions C01_planned_nonvacuous.
